@@ -151,3 +151,13 @@ From HC.Proofs Require Import TieStatus.
 Theorem C03_source_method_gate : forall q, src_is_request_method_understood q = is_request_method_understood q.
 Proof. exact tie_is_request_method_understood. Qed.
 Print Assumptions C03_source_method_gate.
+
+(* the effect trees this property is stated about — which store / origin / clock operations happen, in which order, under
+   which conditions, and what every path returns — are those /verif/translate derives from the Go source on this run
+   (Generated/SrcEffects.v; equal up to the extensional equality of continuations, ProgEq.peq, which [run] respects) *)
+From HC.Generated Require Import SrcEffects.
+From HC.Proofs Require Import ProgEq TieEffects.
+Theorem C03_source_effects :
+  (forall q, peq (src_round_trip q) (round_trip q)).
+Proof. exact tie_round_trip. Qed.
+Print Assumptions C03_source_effects.
